@@ -21,7 +21,7 @@ Section Merkle.
   Fixpoint empty_root (h : nat) : H :=
     match h with
     | O => empty0
-    | S h' => hash_pair (empty_root h') (empty_root h')
+    | S h' => let e := empty_root h' in hash_pair e e
     end.
 
   (* one level of MerkleTree::new's loop: pair adjacent nodes, an odd last node
